@@ -42,7 +42,7 @@ def rule_derive(ctx):
 
 def rule_injective(ctx):
     nq = 2 if ctx.tier == "quick" else 3
-    m = agree.run_agree(ctx, "AGREE-INJ", "builder", nq)
+    m = agree.run_agree(ctx, "AGREE-INJ", "builder", nq, reference_parser=True)
     facts = ctx.facts()
     # converse: Display reads only package_type() and the parts (through accessors / the qualifiers field)
     body = m.fm["body"]
